@@ -31,6 +31,7 @@ RULES = [
     Rule('C03.R6', 'no loop compares its induction variable with a bound of a wider type', 30),
     Rule('C03.R8', 'a scratch buffer of a chip wrapper sized through a rate-dependent object is re-allocated whenever that object is re-initialised, for the full block length', 2),
     Rule('C03.R9', 'a loop jump of the sequencer keeps the time the running tick still owes (the audio loop and Tick terminate because the owed time only shrinks)', 3),
+    Rule('C03.R10', 'every stdio operation on a FILE* member that comes from fopen() is dominated by a NULL test of that member', 10),
     Rule('C03.R7', 'every access through a caller-provided (buffer, size) pair stays below the size', 20),
 ]
 EXPLANATION = ('Interval abstract interpretation (engine E2) of every reachable function of the core units: parameter ranges are the C types\' ranges for '
@@ -115,6 +116,8 @@ def analyse(facts, tier):
     obls += r7(facts)
     obls += r8_scratch(facts)
     obls += r9_loop_jump(facts)
+    obls += r10_file_streams(facts)
+    obls += r5_null_strings(facts)
     if res['leaf_seen'] < 0.97 * res['leaf_total']:
         raise build.AnalysisBroken('E2 reached only %d of %d statements: the interpreter is dropping paths' % (res['leaf_seen'], res['leaf_total']))
     return obls, {'e2_functions': res['functions'], 'e2_seconds': round(res['secs'], 2), 'field_ranges': len(res['field_ranges']),
@@ -625,4 +628,86 @@ def r9_loop_jump(facts):
                                'the jump takes the wait recorded at the loop start back: after a tick longer than the loop body (opn2_tickEvents, large tempo multiplier) every pass resets the wait to the same negative value, Tick returns 0 forever and opn2_play never returns'))
     if n < 3:
         raise build.AnalysisBroken('C03.R9: only %d loop jumps found in processEvents (expected the global loop and the two loop-stack jumps)' % n)
+    return out
+
+
+STDIO_STREAM_ARG = {'fwrite': 3, 'fread': 3, 'fseek': 0, 'ftell': 0, 'fclose': 0, 'fflush': 0, 'fputc': 1, 'fputs': 1, 'fprintf': 0, 'rewind': 0, 'fgetc': 0}
+
+
+def r10_file_streams(facts):
+    """the VGM dumper opens its output with fopen() in the constructor; the path may not be creatable (read-only directory,
+    opn2_set_vgm_out_path), so the member is NULL for the life of the chip.  Every stdio call that receives a FILE* member assigned
+    from fopen, directly or through a local helper taking the stream, must sit behind a test of the member (early return or
+    enclosing if) in its own function."""
+    out = []
+    members = set()
+    for fn in facts.all_fns():
+        if not fn.relfile().startswith('src/') or fn.tree is None:
+            continue
+        for b, j, st in fn.cfg.stmts():
+            for x in walk(st['s']):
+                ap = assign_parts(x)
+                if ap and strip(ap[0]).get('k') == 'MemberExpr' and any('callee' in y and short(callee_name(y)) == 'fopen' for y in walk(ap[1])):
+                    members.add(strip(ap[0])['n'])
+    if not members:
+        if facts.view in ('noVGM',):
+            return out
+        raise build.AnalysisBroken('C03.R10: no FILE* member assigned from fopen found (expected VGMFileDumper::m_output)')
+    n = 0
+    for fn in facts.all_fns():
+        if not fn.relfile().startswith('src/') or fn.tree is None:
+            continue
+        for b, j, st in fn.cfg.stmts(conds=True):
+            for x in calls_in(st['s']):
+                cn = short(callee_name(x))
+                args = x.get('a', [])
+                hit = None
+                for a in args:
+                    sa = strip(a)
+                    if sa.get('k') == 'MemberExpr' and sa.get('n') in members:
+                        hit = sa
+                if hit is None:
+                    continue
+                if st['s'].get('k') in (None,) :
+                    pass
+                n += 1
+                gf = guard_facts(fn, b, st)
+                ok = any((f[0] == 'truth' and f[2] and strip(f[1]).get('n') == hit['n']) or
+                         (f[0] == 'cmp' and f[1] == '!=' and strip(f[2]).get('n') == hit['n'] and const_of(f[3]) == 0) for f in gf)
+                out.append(Obl('C03.R10', fn.name, '%s(.. %s ..)' % (cn, short(hit['n'])), st['loc'], 'discharged' if ok else 'finding',
+                               why='dominated by a test of %s' % short(hit['n']) if ok else
+                               '%s is NULL when the output file cannot be created (fopen failed; the assert is compiled out): %s() on a NULL stream crashes inside opn2_switchEmulator / opn2_close' % (short(hit['n']), cn)))
+    if n < 10:
+        raise build.AnalysisBroken('C03.R10: only %d stdio calls on FILE* members found' % n)
+    return out
+
+
+def r5_null_strings(facts):
+    """std::string(const char *) throws std::logic_error for a null pointer.  An exported function that turns one of its `const char *`
+    parameters into a std::string (usually implicitly, by calling a method that takes `const std::string &`) must test the parameter
+    first: nothing catches the exception below the C API."""
+    out = []
+    n = 0
+    for fn in facts.all_fns():
+        if not fn.name.startswith('opn2_') or fn.tree is None or not fn.d.get('extern_c', True):
+            continue
+        cps = {p['id']: p for p in fn.params if (p.get('t') or {}).get('p') and 'char' in ((p.get('t') or {}).get('pt') or '')}
+        if not cps:
+            continue
+        for b, j, st in fn.cfg.stmts(conds=True):
+            for x in walk(st['s']):
+                if not (isinstance(x, dict) and x.get('ctor') and 'basic_string' in (x.get('callee') or '') and x.get('a')):
+                    continue
+                a0 = strip(x['a'][0])
+                if a0.get('k') != 'DeclRefExpr' or a0.get('id') not in cps:
+                    continue
+                n += 1
+                gf = guard_facts(fn, b, st)
+                ok = any((f[0] == 'truth' and f[2] and strip(f[1]).get('id') == a0['id']) or
+                         (f[0] == 'cmp' and f[1] == '!=' and strip(f[2]).get('id') == a0['id'] and const_of(f[3]) == 0) for f in gf)
+                out.append(Obl('C03.R5', fn.name, 'std::string(%s)' % short(a0.get('n', '')), st['loc'], 'discharged' if ok else 'finding',
+                               why='the parameter is tested against NULL first' if ok else
+                               'the `const char *` parameter %s is converted to a std::string without a NULL test: a null pointer throws std::logic_error through the C API (abort)' % short(a0.get('n', ''))))
+    if n < 2 and facts.view in ('V0', 'V1'):
+        raise build.AnalysisBroken('C03.R5: string conversions of char* parameters in the API not found (%d)' % n)
     return out
